@@ -937,6 +937,7 @@ int main(int argc, char **argv)
   c04_either_shards();
   c04_variant_shards();
   c04_poly_shards();
+  c04_refs_shards();
   c04_rich_val_shards();
   c04_rich_heap_shards();
   c04_rich_move_only_shards();
